@@ -29,14 +29,21 @@ func indent(conf *config.FormatConfig, level int) string {
 // Format comment line (ignore inline comment)
 func formatCommentCharacter(comment string, char rune) string {
 	bs := []rune(comment)
+	// Fastly macro comment like "#FASTLY recv" must be kept as is
+	if strings.HasPrefix(comment, "#FASTLY") {
+		return comment
+	}
 	// Sharp-style comment
 	switch bs[0] {
 	case '#':
-		for i := range bs {
-			if bs[i] != '#' {
-				break
-			}
-			bs[i] = char
+		var n int
+		for n < len(bs) && bs[n] == '#' {
+			bs[n] = char
+			n++
+		}
+		// A single sharp must become double slashes, "/" itself does not start a comment
+		if n == 1 && char == '/' {
+			return "/" + string(bs)
 		}
 	// Slash-style comment
 	case '/':
